@@ -39,6 +39,10 @@ def tags_preorder(r, out):
         out.append(r)
         for c in r["c"]:
             tags_preorder(c, out)
+    elif r.get("nodelist") is not None:
+        # a list stored as a node: a self-rendering object whose markup holds the tags of its items
+        for c in r["nodelist"]:
+            tags_preorder(c, out)
     return out
 
 
@@ -158,7 +162,7 @@ def check_case(ctx, r, indent, eol, content_ws=False):
 def add_content_whitespace(rng, r, eol):
     """Give some leaves internal / edge whitespace including the eol string in use."""
     for x in gen.walk(r):
-        if x["k"] in ("text", "html", "obj") and rng.random() < 0.5:
+        if x["k"] in ("text", "html", "obj") and "nodelist" not in x and rng.random() < 0.5:
             mid = rng.choice(["\n", " ", eol or "\n", "\n\n", "\t", " \n  "])
             x["s"] = rng.choice([x["s"] + mid + "z" + x["s"], mid + x["s"], x["s"] + mid, "<pre>" + x["s"] + mid + "q</pre>" if x["k"] != "text" else x["s"] + mid + "q"])
 
@@ -252,7 +256,63 @@ def check_dependency_heads(ctx, heads, via):
     return True
 
 
+def check_string_heads(ctx, rng, ids):
+    """head= given as a plain string is raw markup, written exactly as given (leading blanks, blank lines and all) wherever
+    the dependency's head goes."""
+    import htmltools as _h
+
+    mark = ids.next("sh")
+    s = rng.choice(["  <!-- %s -->", "    <i>%s</i>\n    <b>x</b>", "\t<u>%s</u>", "<i>%s</i>\n   \n<b>y</b>", " \n  <em>%s</em>\n ", "<x-a>%s</x-a>", "\n\n<s>%s</s>", "  a%s\n    b\n  c"]) % mark
+    dep = ht.HTMLDependency("sh", "1.0", head=s)
+    wit = {"string_head": s}
+    ctx.count("oracle.string_heads")
+    views = {"as_html_tags": dep.as_html_tags().get_html_string(), "as_dict": dep.as_dict()["head"] or "", "document": ht.HTMLDocument(ht.div("b", dep)).render()["html"],
+             "serialised+recovered": ht.HTMLTextDocument("<head>@@</head>" + dep.serialize_to_script_json().get_html_string(), deps_replace_pattern="@@").render()["html"]}
+    old = _h.html_dependency_render_mode
+    _h.html_dependency_render_mode = "json"
+    try:
+        views["json-mode str + text document"] = ht.HTMLTextDocument("<head>@@</head>" + str(ht.span("t", dep)), deps_replace_pattern="@@").render()["html"]
+    finally:
+        _h.html_dependency_render_mode = old
+    for how, out in views.items():
+        if s not in out:
+            ctx.violation("inline-subtree-not-contiguous", "raw head markup given as a plain string is not written exactly as given (%s)" % how, dict(wit, via=how, output=out[:600]))
+            return False
+    return True
+
+
+def check_json_fragment_in_inline(ctx, r, lead):
+    """An inline fragment rendered in JSON dependency mode (its serialised dependencies follow its markup), embedded in inline
+    content and followed by content that starts with `lead`: after HTMLTextDocument took the scripts out, the inline content is
+    what it would be without the dependencies."""
+    import htmltools as _h
+
+    if r["k"] != "tag":
+        r = gen.TAG("em", r, ws=False, via_fn=False)
+    inner = gen.build_root(r)
+    dep = ht.HTMLDependency("jf", "1.0", script={"src": "j.js"})
+    wit = {"recipe": r, "lead": lead, "scenario": "json fragment in inline content"}
+    old = _h.html_dependency_render_mode
+    _h.html_dependency_render_mode = "json"
+    try:
+        frag = str(ht.TagList(inner, dep))
+    finally:
+        _h.html_dependency_render_mode = old
+    plain = inner.get_html_string()
+    outer = ht.span(ht.HTML(frag), lead + "next", ht.tags.b("z"), _add_ws=False).get_html_string()
+    want = ht.span(ht.HTML(plain), lead + "next", ht.tags.b("z"), _add_ws=False).get_html_string()
+    ctx.count("oracle.json_fragment_in_inline")
+    got = ht.HTMLTextDocument("<p>@@</p>" + outer, deps_replace_pattern="@@none@@").render()["html"]
+    if got != "<p>@@</p>" + want:
+        ctx.violation("whitespace-between-inline-siblings", "inline content around a serialised dependency changed when the dependency was taken out",
+                      dict(wit, got=got[-300:], want=want[-300:]))
+        return False
+    return True
+
+
 def replay(ctx, w):
+    if "string_head" in w or w.get("scenario") == "json fragment in inline content":
+        return True
     if "recipe_after_mutation" in w:
         return
     if "dependency_heads" in w:
@@ -326,6 +386,12 @@ def _run(ctx):
         ctx.case(("heads", heads, via), nontrivial=len(heads) >= 2)
     for _ in range(ctx.budget(60, 6000)):
         ids = lg.Ids()
+        ctx.guard(check_string_heads, ctx, rng, ids, witness={"scenario": "string heads"})
+        r = lg.rand_layout_tree(rng, ids, rng.choice([0, 1, 2]), valid=True, inside_inline=True, root_kind="inline",
+                                kinds_w={"inline": 3, "text": 3, "html": 1, "obj": 1, "void_inline": 1, "block": 0, "void_block": 0, "meta": 0, "dep": 0, "rawtext": 0})
+        ctx.guard(check_json_fragment_in_inline, ctx, r, rng.choice(["\n", "\r\n", "", " \n", "\n\n"]), witness={"recipe": r, "scenario": "json fragment in inline content"})
+    for _ in range(ctx.budget(60, 6000)):
+        ids = lg.Ids()
         r = lg.rand_layout_tree(rng, ids, rng.choice([1, 2, 3]), valid=False, kinds_w={"block": 3, "inline": 5, "void_inline": 1, "void_block": 1, "text": 4, "html": 1, "obj": 1, "meta": 0, "dep": 0},
                                    root_kind=rng.choice(["block", "inline"]))
         add_exotic_breaks(rng, r)
@@ -356,9 +422,9 @@ def _run(ctx):
         depth = rng.choice([1, 2, 3, 4, 5, 6, 7])
         if rng.random() < 0.2:
             r = {"k": "list", "t": "taglist",
-                 "c": [lg.rand_layout_tree(rng, ids, depth - 1, valid=False, kinds_w=w) for _ in range(rng.randint(0, 5))]}
+                 "c": [lg.rand_layout_tree(rng, ids, depth - 1, valid=False, kinds_w=w, direct_only_kinds=True) for _ in range(rng.randint(0, 5))]}
         else:
-            r = lg.rand_layout_tree(rng, ids, depth, valid=False, kinds_w=w, root_kind=rng.choice(["block", "inline", "inline"]))
+            r = lg.rand_layout_tree(rng, ids, depth, valid=False, kinds_w=w, direct_only_kinds=True, root_kind=rng.choice(["block", "inline", "inline"]))
         indent = rng.choice([0, 0, 1, 2, 4])
         eol = rng.choice(EOLS)
         cws = rng.random() < 0.3
